@@ -6,10 +6,13 @@ import os
 ROOT = os.path.dirname(os.path.dirname(os.path.abspath(__file__)))
 props = [json.loads(l) for l in open(os.path.join(ROOT, "properties.jsonl"))]
 
-MATCHER_NOTE = ("Trusted: Lean kernel; axioms propext/Classical.choice/Quot.sound; translator (constants, presets, matrix layout); harness+driver. "
+MATCHER_NOTE = ("Trusted: Lean kernel; axioms propext/Classical.choice/Quot.sound; translator (constants, presets, matrix layout, and the cell functions of the optimal matcher - "
+                "next_m_cell, p_score, MatrixCell::set/get, UNMATCHED, the first-row cell, the prefix bonus - translated expression by expression into Gen/Optimal.lean); harness+driver. "
                 "Modelled, not verified: the control flow of the matcher (tied by the correspondence run: corpus + seeded random + exhaustive small domain + "
-                "size-limit shapes, every case on a fresh, a used and a poisoned matcher); the optimal matcher at the level of the naive two-matrix recurrence "
-                "(row compression and back-pointer decoding by correspondence only); std Unicode predicates and memchr/memmem as parameters.")
+                "size-limit shapes, every case on a fresh, a used and a poisoned matcher). The optimal matcher is modelled twice: as the naive two-matrix recurrence (optimalDP) and at code level "
+                "(Model/OptImpl.lean: one score row shifted by the row offsets, UNMATCHED sentinels, two-bit back-pointer segments, traceback; loops transcribed by hand zip for zip, u16/u8 arithmetic "
+                "as Nat with narrowing casts as mod); the two are proved equal for every input and every prior content of the scratch memory (Props/C04_Compressed.lean), and the code-level model is "
+                "run against the implementation on every matrix-path case. std Unicode predicates and memchr/memmem as parameters.")
 
 CLAIMS = {
     "C01": dict(
@@ -37,11 +40,13 @@ CLAIMS = {
              "fit; normalized needle, prefix preference off) and C02_fuzzy_entry_ascii_one / _unicode_one for one-character needles (the reported index is an occurrence); substring matching "
              "reports the contiguous indices of an occurrence of the needle, starting at the position the matcher picked (companion file C02_Substring: "
              "C02_substring_ascii_witness, C02_substring_unicode_witness, through the decision theorems of C05); "
-             "failed matches carry no indices. The substring scan's window and the equality of the real back-pointer "
-             "matrix with the recurrence are checked on the implementation's output for every case (prior vector content random, must be untouched)."),
+             "failed matches carry no indices. The traceback through the compressed back-pointer matrix (companion file C02_Traceback, from C04_Compressed): the code-level model of "
+             "reconstruct_optimal_path over the two-bit cells written by score_row reproduces, index by index, the alignment of the recurrence's best cell, for every input and prior "
+             "scratch content, hence a valid witness (C02_traceback_valid_witness). The substring scan's window and the agreement of both optimal-matcher models with the implementation "
+             "are checked on the implementation's output for every case (prior vector content random, must be untouched)."),
     "C03": dict(
         technique="Lean 4 theorems (constants = documented literals, bonus table, calculate_score loop and the optimal recurrence = scheme on the reported alignment) + scheme oracle on the implementation's alignment",
-        text="Partial proof. Theorems: the extracted constants equal the documented numbers; bonus_for equals the documented 7x7 bonus table for every pair of classes and every "
+        text="Theorems: the extracted constants equal the documented numbers; bonus_for equals the documented 7x7 bonus table for every pair of classes and every "
              "configuration; calculate_score returns exactly the scheme's value of the alignment it reports for every window ending at the last match while the u16 accumulator is "
              "unsaturated (C03_calculateScore_eq_alignScore); the optimal matcher's two-matrix recurrence returns the scheme's value of the alignment it reports, for every haystack, "
              "needle and window (C03_optimalDP_eq_alignScore, by cell invariants over all columns and rows); prefix, postfix and exact matching return the scheme's value of the contiguous "
@@ -54,18 +59,24 @@ CLAIMS = {
              "they report (C03_fuzzy_entry_ascii / _unicode: needles of 2 to 2519 characters, prefix preference off); companion file C03_Paths: the substring matchers "
              "(C03_substring_ascii_score / _unicode_score), the greedy matcher (C03_greedy_ascii_score / _unicode_score) and hence EVERY path of fuzzy_match - contiguous shortcut, "
              "matrix, greedy fallback - return the scheme's value of the alignment they report (C03_fuzzy_all_paths_ascii / _unicode); fuzzy_match_correct_ascii / _unicode put C01, C02 "
-             "and C03 into one statement about fuzzy_match (matches iff subsequence; then a valid witness whose scheme value is the score). One-character needles: C03_fuzzy_one_char_ascii / _unicode (from the one-character optimum of C04). Not theorems: the fuzzy_match_greedy entry dispatch at the score level "
-             "(its inner routine is C03_greedy_*_score, its witness theorem is in C02), and the equality of the compressed u16 matrix with the recurrence - both are the correspondence (implementation = model on every case), and the oracle "
+             "and C03 into one statement about fuzzy_match (matches iff subsequence; then a valid witness whose scheme value is the score). One-character needles: C03_fuzzy_one_char_ascii / _unicode (from the one-character optimum of C04). Companion file C03_GreedyEntry: the fuzzy_match_greedy entry point "
+             "(length guards, greedy-only prefilter, contiguous shortcut, inner routine) returns the scheme's value of the alignment it reports (C03_greedy_entry_ascii / _unicode). The compressed matrix of "
+             "fuzzy_optimal.rs equals the recurrence (C04_Compressed: optimalImpl_eq_optimalDP, C04_compressed_matrix_correct - with the u16/u8 arithmetic read as exact, which C03_fits_u16 justifies for needles up to 2519 characters). The oracle "
              "evaluates score = scheme on the reported indices for all six algorithms on every case; the u16 saturation for needles > 2520 characters is a KNOWN-FINDING."),
     "C04": dict(
-        technique="Lean 4 theorems (early-exit soundness) + brute-force optimum oracle + model-equals-recurrence correspondence",
+        technique="Lean 4 theorems (prefilter window = full matrix; code-level model of the compressed matrix = recurrence by refinement, row by row; early-exit soundness; upper bound) + brute-force optimum oracle + correspondence of both models with the implementation",
         text="Theorems. 'Never lower than the recurrence evaluated on the full matrix' (companion file C04_Window): the model evaluates the documented two-matrix recurrence on the "
              "prefilter window h[start..end]; C04_window_is_full_matrix proves that this IS the value (score and alignment) of the same recurrence on all of h whenever the first "
              "needle character does not occur before start and the last not at or behind end (rows over pre ++ window ++ post are the rows over the window padded with empty cells: "
              "dpCols_window; the full matrix's columns split at the window: windowCols_split), C04_window_lossless_ascii / _unicode prove that the windows prefilter_ascii and "
              "prefilter_non_ascii choose have that property (first occurrence of the first character, one past the last occurrence of the last), and "
              "C04_fuzzy_is_full_matrix_ascii / _unicode state it at the fuzzy_match entry point for the matrix path (prefix preference off, needle of at least two characters, "
-             "scratch layout fits). What ties the implementation's single-row/offset compression to this recurrence is the correspondence (implementation = model on every case). "
+             "scratch layout fits). 'The single-row, offset-compressed matrix equals the recurrence everywhere' (companion file C04_Compressed): the code-level model of "
+             "fuzzy_match_optimal - greedy row offsets of setup, one score row reused for all needle rows and shifted by the offsets, UNMATCHED sentinels and zero P-scores for "
+             "'no cell', the two column loops of score_row, populate_matrix, max_by_key over the last row, two-bit back-pointer cells in per-row segments split off the end, the loop of "
+             "reconstruct_optimal_path; cell functions generated from the source - returns exactly the score and alignment of the recurrence, for every window, needle of at least two characters, "
+             "configuration and every prior content of the score row and the back-pointer cells (optimalImpl_eq_optimalDP; C04_compressed_matrix_correct: valid witness, score = scheme, "
+             "at most the maximum over all alignments). The code-level model is tied to the implementation by the translator (cell functions) and by running it on every matrix-path case. "
              "Further theorems: no bonus exceeds the value the early exit waits for (all presets), a candidate scan keeps the leftmost maximum and stops only at the "
              "maximum; the optimal matcher's recurrence never scores above the maximum over all alignments (C04_upper_bound: its value is the scheme's value of an alignment the "
              "brute-force specification enumerates; every haystack, needle, window, prefix preference off). For a one-character needle the ASCII matcher returns exactly the maximum over all alignments, at the leftmost best-placed occurrence "
@@ -87,11 +98,13 @@ CLAIMS = {
              "entry point (companion file C05_Entry) every branch of the dispatch - needle longer than the haystack, equal lengths, the ASCII scan, the code-point scan behind its "
              "prefilter - decides 'the needle occurs contiguously in the normalized haystack' (C05_substring_entry_ascii / _unicode, needles of at least two characters). K1 is a KNOWN-FINDING."),
     "C10": dict(
-        technique="Lean 4 theorem over all sizes about the translated slab layout + run-time extents hook + overflow-checked correspondence with poisoned slab",
+        technique="Lean 4 theorems: slab layout over all sizes (translated), history independence of the code-level matrix model for every prior scratch content + run-time extents hook + overflow-checked correspondence with poisoned slab",
         text="Theorem (all window and needle lengths, both character sizes): the five views MatrixSlab::alloc hands out are inside the slab, pairwise disjoint and aligned; view and layout "
-             "element counts are translated from matrix.rs on every run and the real byte ranges reported by the cfg-gated hook must equal the model's. Totality and history independence: "
-             "every case runs in a build with overflow checks and debug assertions on a fresh, a used and a poisoned matcher; any panic or difference is a violation (partial: "
-             "correspondence, not theorem)."),
+             "element counts are translated from matrix.rs on every run and the real byte ranges reported by the cfg-gated hook must equal the model's. History independence of the one "
+             "path that keeps state in the slab (companion file C10_Matrix, from C04_Compressed): the code-level model of fuzzy_match_optimal takes the prior content of the score row and of the "
+             "back-pointer cells as arguments and returns the same result for every such content (C10_matrix_history_independent: it reads a cell of either only after writing it in the same "
+             "call). Totality, and history independence of the real code: every case runs in a build with overflow checks and debug assertions on a fresh, a used and a poisoned matcher; "
+             "any panic or difference is a violation (absence of panics and overflow: correspondence, not theorem)."),
     "C16": dict(
         technique="Lean 4 theorems over all code points (kernel-decided complete tables lifted by range lemmas) + exhaustive model/implementation correspondence",
         text="Every clause of C16 is a Lean theorem over every natural number (hence every scalar value) about a model whose tables, table lengths and block dispatch are regenerated "
